@@ -200,10 +200,11 @@ Proof.
   intros Hc Hcv. destruct (code_roundtrip c Hc) as (v & Hv & Hb & _). congruence.
 Qed.
 
+(* for EVERY status metadata and whatever m0 holds under grpc-status-details-bin: since fix ed827503
+   (F-C04e) the details header of the written map is the status's own or absent *)
 Lemma status_read_back st m0 :
   well_formed st -> utf8_valid (st_msg st) = true ->
-  hm_get_all (st_md st) hdr_grpc_status_details = [] ->
-  hm_get_all m0 hdr_grpc_status_details = [] -> hm_get_all m0 hdr_grpc_message = [] ->
+  hm_get_all m0 hdr_grpc_message = [] ->
   exists h st',
     add_header st m0 = Some h /\ from_header_map h = Some st' /\
     st_code st' = st_code st /\ st_msg st' = st_msg st /\ st_details st' = st_details st /\
@@ -219,35 +220,26 @@ Lemma status_read_back st m0 :
        | l => l
        end).
 Proof.
-  intros WF U8 ND M0D M0M. pose proof WF as (Hc & Hm & Hd).
+  intros WF U8 M0M. pose proof WF as (Hc & Hm & Hd).
   destruct (Metadata.add_header_wire st m0 WF) as (h & cv & Hh & Hcv & Hpt).
   destruct names_distinct as (SM & SD & MD & MS & DS & DM).
   exists h.
   assert (GS : hm_get_all h hdr_grpc_status = [cv]).
-  { rewrite Hpt.
-    replace (Metadata.set_by hdr_grpc_status_details (Metadata.details_value st) hdr_grpc_status) with false
-      by (unfold Metadata.set_by; destruct (Metadata.details_value st); [now rewrite DS|reflexivity]).
+  { rewrite Hpt, DS.
     replace (Metadata.set_by hdr_grpc_message (Metadata.msg_value st) hdr_grpc_status) with false
       by (unfold Metadata.set_by; destruct (Metadata.msg_value st); [now rewrite MS|reflexivity]).
     now rewrite bytes_eqb_refl. }
   assert (GM : hm_get_all h hdr_grpc_message =
                match st_msg st with [] => [] | _ => [pct_encode in_encoding_set (st_msg st)] end).
-  { rewrite Hpt.
-    replace (Metadata.set_by hdr_grpc_status_details (Metadata.details_value st) hdr_grpc_message) with false
-      by (unfold Metadata.set_by; destruct (Metadata.details_value st); [now rewrite DM|reflexivity]).
+  { rewrite Hpt, DM.
     unfold Metadata.msg_value, Metadata.set_by, Metadata.opt_list.
     destruct (st_msg st) as [|a l]; cbn [Metadata.is_nil].
     - rewrite SM. change (Metadata.is_reserved hdr_grpc_message) with true. cbn iota. exact M0M.
     - now rewrite bytes_eqb_refl. }
   assert (GD : hm_get_all h hdr_grpc_status_details =
                match st_details st with [] => [] | _ => [enc false (st_details st)] end).
-  { rewrite Hpt. unfold Metadata.details_value, Metadata.set_by, Metadata.opt_list.
-    destruct (st_details st) as [|a l]; cbn [Metadata.is_nil].
-    - replace (match Metadata.msg_value st with Some _ => bytes_eqb hdr_grpc_message hdr_grpc_status_details | None => false end)
-        with false by (destruct (Metadata.msg_value st); [now rewrite MD|reflexivity]).
-      rewrite SD. change (Metadata.is_reserved hdr_grpc_status_details) with false. cbn iota.
-      rewrite ND. exact M0D.
-    - now rewrite bytes_eqb_refl. }
+  { rewrite Hpt, bytes_eqb_refl. unfold Metadata.details_value, Metadata.opt_list.
+    destruct (st_details st) as [|a l]; reflexivity. }
   assert (Dmsg : pct_decode (pct_encode in_encoding_set (st_msg st)) = st_msg st)
     by (apply pct_decode_encode; [exact pct_in_set | exact Hm]).
   assert (Ddet : Base64.dec (enc false (st_details st)) = Some (st_details st)) by (now apply dec_enc).
@@ -259,8 +251,7 @@ Proof.
             end).
   { intros k Hk. unfold status_key in Hk. apply orb_false_iff in Hk as [Hk K3]. apply orb_false_iff in Hk as [K1 K2].
     rewrite Hpt.
-    replace (Metadata.set_by hdr_grpc_status_details (Metadata.details_value st) k) with false
-      by (unfold Metadata.set_by; destruct (Metadata.details_value st); [now rewrite bytes_eqb_sym, K3|reflexivity]).
+    replace (bytes_eqb hdr_grpc_status_details k) with false by (now rewrite bytes_eqb_sym, K3).
     replace (Metadata.set_by hdr_grpc_message (Metadata.msg_value st) k) with false
       by (unfold Metadata.set_by; destruct (Metadata.msg_value st); [now rewrite bytes_eqb_sym, K2|reflexivity]).
     now rewrite bytes_eqb_sym, K1. }
@@ -575,6 +566,22 @@ Qed.
 (* the handler of a stream-response shape returned Ok(md, stream); the stream's items are, under
    any schedule, messages ms and then either the end (fin = None) or an item that ends the call
    with status st (fin = Some st: an Err(st) item, or a message that cannot be sent) *)
+(* the status the caller reads: code, message, details equal for EVERY metadata of the handler's
+   status (fix ed827503, F-C04e); the metadata name by name minus the reserved names and minus what
+   was filed under grpc-status-details-bin, a name the reader strips *)
+Definition same_status_full (a b : status) : Prop :=
+  st_code a = st_code b /\ st_msg a = st_msg b /\ st_details a = st_details b /\
+  forall k, hm_get_all (st_md a) k =
+            if bytes_eqb k hdr_grpc_status_details then [] else hm_get_all (sanitize (st_md b)) k.
+(* with the premise the theorems had before the fix, this is Codec.same_status *)
+Lemma same_status_full_whole a b :
+  hm_get_all (st_md b) hdr_grpc_status_details = [] -> same_status_full a b -> same_status a b.
+Proof.
+  intros ND (C1 & C2 & C3 & C4). repeat split; try assumption. intros k. rewrite C4.
+  destruct (bytes_eqb k hdr_grpc_status_details) eqn:K3; [|reflexivity].
+  apply bytes_eqb_eq in K3. subst k. now rewrite get_all_sanitize, reserved_details, ND.
+Qed.
+
 Theorem response_stream (cl sv : side) (sh : shape) (qh md : hm) (src : list (Encoder.sevent msg))
         (ms : list msg) (ps : list (list N)) (fin : option status) (fuel : nat) :
   plain sv -> resp_streaming sh = true ->
@@ -582,8 +589,7 @@ Theorem response_stream (cl sv : side) (sh : shape) (qh md : hm) (src : list (En
   Forall (fun p => nlen p <= dec_limit (max_dec cl)) ps ->
   hm_get_all md hdr_grpc_encoding = [] ->
   (forall st, fin = Some st ->
-     well_formed st /\ utf8_valid (st_msg st) = true /\
-     hm_get_all (st_md st) hdr_grpc_status_details = [] /\ st_code st <> Code_Ok) ->
+     well_formed st /\ utf8_valid (st_msg st) = true /\ st_code st <> Code_Ok) ->
   exists w, handler_response sv qh (HStream (inl (md, src))) = Some w /\
     forall script, carries (wr_frames w) script -> (length script + length ms + 2 <= fuel)%nat ->
     exists md' e,
@@ -591,7 +597,7 @@ Theorem response_stream (cl sv : side) (sh : shape) (qh md : hm) (src : list (En
       (forall k, Metadata.is_reserved k = false -> hm_get_all md' k = hm_get_all md k) /\
       match fin with
       | None => e = EndOk
-      | Some st => exists st', e = EndErr st' /\ same_status st' st
+      | Some st => exists st', e = EndErr st' /\ same_status_full st' st
       end.
 Proof.
   intros PL Hsh O Hl Hmd Hfin.
@@ -607,10 +613,10 @@ Proof.
   rewrite app_length in Hf.
   destruct fin as [st|].
   - (* the call ends with status st *)
-    destruct (Hfin st eq_refl) as (WF & U8 & ND & NOk).
+    destruct (Hfin st eq_refl) as (WF & U8 & NOk).
     destruct (err_frames (cfg_of sv) Encoder.Server src 0 ms ps st O) as [CC NDF].
     rewrite NDF in *. rewrite CC in DE.
-    destruct (status_roundtrip st WF U8 ND) as (t & st' & TH & FH & C1 & C2 & C3 & C4).
+    destruct (status_roundtrip_full st WF U8) as (t & st' & TH & FH & C1 & C2 & C3 & C4).
     cbn [Encoder.end_frames map] in *. unfold Encoder.trailers_frame in *. rewrite TH in *.
     cbn [bev_of_frame length] in *.
     pose proof (J_plain (Response 200) (max_dec cl) sv ms ps evs F2 Hl DE) as J0.
@@ -683,17 +689,18 @@ Qed.
 Theorem early_error (cl sv : side) (sh : shape) (qh : hm) (st : status) (h : hscript msg) (fuel : nat) :
   h = HUnary (inr st) \/ h = HStream (inr st) ->
   well_formed st -> utf8_valid (st_msg st) = true ->
-  hm_get_all (st_md st) hdr_grpc_status_details = [] ->
   hm_get_all (st_md st) hdr_grpc_encoding = [] ->
   st_code st <> Code_Ok ->
   exists w, handler_response sv qh h = Some w /\ wr_frames w = [] /\
     forall script, exists st',
       client_call cl sh (wr_http w) (wr_headers w) script fuel = CRErr st' /\
       st_code st' = st_code st /\ st_msg st' = st_msg st /\ st_details st' = st_details st /\
-      forall k, Metadata.is_reserved k = false -> hm_get_all (st_md st') k = hm_get_all (st_md st) k.
+      forall k, Metadata.is_reserved k = false ->
+        hm_get_all (st_md st') k =
+        if bytes_eqb k hdr_grpc_status_details then [] else hm_get_all (st_md st) k.
 Proof.
-  intros Hh WF U8 ND NE NOk.
-  destruct (status_read_back st Metadata.ct_only WF U8 ND eq_refl eq_refl)
+  intros Hh WF U8 NE NOk.
+  destruct (status_read_back st Metadata.ct_only WF U8 eq_refl)
     as (hd & st' & AH & FH & C1 & C2 & C3 & C4 & OT).
   assert (HR : handler_response sv qh h = Some (mkWR 200 hd [])).
   { assert (SR : status_response st = Some (mkWR 200 hd [])).
@@ -714,7 +721,7 @@ Proof.
     by (rewrite bytes_eqb_sym; apply (Metadata.reserved_neq _ _ Metadata.reserved_message_name Hk)).
   unfold status_key. rewrite K1, K2, Hk. cbn [orb].
   destruct (bytes_eqb k hdr_grpc_status_details) eqn:K3.
-  - apply bytes_eqb_eq in K3. subst k. now rewrite ND.
+  - reflexivity.
   - destruct (hm_get_all (st_md st) k) eqn:G; [|reflexivity].
     rewrite Metadata.get_all_ct_only.
     replace (bytes_eqb Metadata.hdr_content_type k) with false; [reflexivity|].
